@@ -382,6 +382,33 @@ class Interp:
         it.dataclasses = cached[6]
         return it
 
+    def _load_class(self, kind):
+        """members of a repository class (unique by name) that was not among the files this interpreter was built from"""
+        self.methods.setdefault(kind, {})
+        try:
+            from .pymodel import model_for
+            lst = model_for(self.src).classes.get(kind, [])
+        except Exception:
+            return
+        if len(lst) != 1 or not lst[0].file:
+            return
+        t = self.src.tree(lst[0].file)
+        node = next((st for st in t.body if isinstance(st, ast.ClassDef) and st.name == kind), None)
+        if node is None:
+            return
+        mem = class_members(node)
+        self.methods[kind] = mem
+        for v in mem.values():
+            self.fn_module[id(v)] = t
+            if isinstance(v, ast.FunctionDef):
+                self.fn_class[id(v)] = kind
+                for n in ast.walk(v):
+                    if isinstance(n, ast.FunctionDef):
+                        self.fn_module[id(n)] = t
+        if hasattr(self, 'own_members'):
+            self.own_members = dict(self.own_members)
+            self.own_members[kind] = dict(mem)
+
     def call_function(self, fn, args, kwargs, outer_env, _as_generator_body=False):
         if not _as_generator_body and any(isinstance(n, (ast.Yield, ast.YieldFrom)) for n in _own_nodes(fn)):
             return GeneratorObj(self, fn, args, kwargs, outer_env)
@@ -653,7 +680,7 @@ class Interp:
                         v = self.ev(g_[1], Env())
                     finally:
                         self.module = saved
-                    if isinstance(v, (list, dict, set)):
+                    if isinstance(v, (list, dict, set, Obj)):
                         self._global_values[key] = v
                     return v
                 return Closure(g_[1], Env(), self)
@@ -844,6 +871,10 @@ class Interp:
             if attr == '__class__':
                 return ClassRef(base.kind)
             m = self.methods.get(base.kind, {}).get(attr)
+            if m is None and base.kind not in self.methods and getattr(self, 'src', None) is not None:
+                # a stand-in of a repository class whose file this interpreter was not built from: its members are read from the class's own source
+                self._load_class(base.kind)
+                m = self.methods.get(base.kind, {}).get(attr)
             if m is not None and not isinstance(m, ast.FunctionDef):
                 return self._ev_in_module(m)          # a class-level constant
             if m is not None:
@@ -905,7 +936,7 @@ class Interp:
             v = self.ev(expr, env)
         finally:
             self.module = saved
-        if isinstance(v, (list, dict, set)):
+        if isinstance(v, (list, dict, set, Obj)):
             self._global_values[id(expr)] = v
         return v
 
@@ -1017,6 +1048,11 @@ class Interp:
             if n == 'hasattr':
                 o = args[0]
                 return isinstance(o, Obj) and args[1] in o.attrs
+            if n == 'setattr' and len(args) == 3 and isinstance(args[0], Obj) and isinstance(args[1], str):
+                args[0].attrs[args[1]] = args[2]          # as `o.<name> = value`
+                return None
+            if n == 'object' and not args and not kwargs:
+                return Obj('object')                        # a fresh sentinel: equal to nothing but itself
             if n == 'getattr':
                 o = args[0]
                 if isinstance(o, Obj) and args[1] in o.attrs:
